@@ -88,12 +88,13 @@ def leaves_close(a, b, rtol, atol, leaf_scale=False):
 class Registry:
     """names pytrees by integer ids; float leaves are matched within tolerance, int/bool leaves exactly"""
 
-    def __init__(self):
+    def __init__(self, physics=False):
         self.items = []
+        self.physics = physics      # MuJoCo / G1 states: float32 noise is relative to the magnitude of each physics vector
 
     def id(self, x):
         for i, y in enumerate(self.items):
-            if leaves_close(x, y, 1e-4, 1e-5)[0]:
+            if (leaves_close(x, y, 2e-4, 2e-4, leaf_scale=True) if self.physics else leaves_close(x, y, 1e-4, 1e-5))[0]:
                 return i
         self.items.append(x)
         return len(self.items) - 1
@@ -129,6 +130,10 @@ def exercise(name, ctor, rng, horizon, seed):
             return out
         raise
     obs_space, act_space = env.observation_space, env.action_space
+    # MuJoCo / G1: the jitted env.step / env.reset and the separately jitted composition of the same components are different XLA programs;
+    # their float32 results differ by reassociation noise that is relative to the magnitude of each physics vector (measured for C12: the
+    # effect of a 1-ulp perturbation of the input state), so the comparison there is relative to the largest magnitude of each leaf
+    physics = name.split("/")[0].split("(")[0] not in ("CartPole", "MountainCar", "ContinuousMountainCar", "Acrobot", "Pendulum")
 
     # reference composition of base_env.py:240-286 (the Coq model Env.gym_step / gym_reset transliterated)
     @eqx.filter_jit
@@ -152,7 +157,7 @@ def exercise(name, ctor, rng, horizon, seed):
                "reward": eqx.filter_jit(lambda s, a, n, k: env.reward(s, a, n, key=k)),
                "terminal": eqx.filter_jit(lambda s, k: env.terminal(s, key=k))}
     # ---- recorded environment for the Coq model (Lerax.Rec): component results as finite tables over state/observation ids
-    sreg, oreg = Registry(), Registry()
+    sreg, oreg = Registry(physics), Registry(physics)
     rec = {"init": [], "trans": [], "obs": [], "rew": [], "term": [], "trunc": [], "steps": [], "outs": []}
     j_init = eqx.filter_jit(lambda k: env.initial(key=k))
     j_trunc = eqx.filter_jit(lambda s: env.truncate(s))
@@ -165,7 +170,7 @@ def exercise(name, ctor, rng, horizon, seed):
     state, obs, info = env.reset(key=k0)
     rec["reset_key"] = [[0, 0]]; rec["reset_state"] = sreg.id(state); rec["reset_obs"] = oreg.id(obs)
     rs, ro = ref_reset(k0)
-    ok, why = leaves_close((state, obs), (rs, ro), 1e-5, 1e-6)
+    ok, why = leaves_close((state, obs), (rs, ro), 2e-4, 2e-4, leaf_scale=True) if physics else leaves_close((state, obs), (rs, ro), 1e-5, 1e-6)
     if not ok:
         out["c01"].append({"what": "reset differs from initial/observation composition: " + why, "t": 0})
     states_seen, actions_seen = [], []
@@ -195,7 +200,8 @@ def exercise(name, ctor, rng, horizon, seed):
         rec["outs"].append([sreg.id(state), oreg.id(obs), float(rew), bool(term), bool(trunc)])
         r_state, r_obs, r_rew, r_term, r_trunc, nxt = ref_step(prev, a, k)
         out["steps"] += 1; out["dones"] += int(bool(term) or bool(trunc))
-        ok, why = leaves_close((state, obs, rew, term, trunc), (r_state, r_obs, r_rew, r_term, r_trunc), 1e-4, 1e-5)
+        ok, why = (leaves_close((state, obs, rew, term, trunc), (r_state, r_obs, r_rew, r_term, r_trunc), 2e-4, 2e-4, leaf_scale=True) if physics
+                   else leaves_close((state, obs, rew, term, trunc), (r_state, r_obs, r_rew, r_term, r_trunc), 1e-4, 1e-5))
         if not ok:
             out["c01"].append({"what": "step differs from the composition of transition/reward/terminal/truncate/initial/observation: " + why, "t": t,
                                "flags": [bool(term), bool(trunc), bool(r_term), bool(r_trunc)], "action": np.asarray(a).tolist()})
